@@ -21,19 +21,25 @@ LEVEL_TEXT = ("Machine-checked proof (Coq, closed under the global context) over
               "gives K = v^x mod p in [1, p-1]; the gex client (KexGex and KexGSSGex) accepts p iff 0 < p and "
               "1024 <= bit_length(p) <= 8192 (iff 2^1023 <= p < 2^8192); the curve25519 test rejects exactly the 32-zero-byte result; any of the "
               "nine handlers that raises has called none of _set_K_H/_verify_key/_send_message/_activate_outbound/"
-              "_expect_packet; tied to the real engines by a differential run of the model (vm_compute) plus an "
+              "_expect_packet; the NIST ECDH handlers, over an arbitrary library that decodes only valid SEC1 encodings, "
+              "never reach _set_K_H/NEWKEYS on an invalid, off-curve, identity or wrong-length encoding; tied to the real engines by a differential run of the model (vm_compute) plus an "
               "implementation-level oracle on boundary and random peer values.")
 LEVEL_NOTE = ("kex_gss.py handlers are modelled only as PREFIXES up to their first transport call (_set_K_H, or the "
               "send of KEXGSS_INIT for the group handler); the GSS context negotiation after it is not modelled and "
               "the engines are driven with a stub GSS context (every context operation succeeds).  The model has no "
               "transport/engine state (a handler's decision depends on the peer value and modulus only); that the real "
               "handlers agree with it on a second call / re-key / after KEXGSS_HOSTKEY is tested, not proved.  "
-              "PARTIAL for elliptic curves: point validation (from_encoded_point, X25519 from_public_bytes/exchange) "
-              "is the `cryptography` library's; in the proofs it is an oracle bit (C08_ec_handler_partial; "
-              "C08_ec_handler_under_spec gives the handlers' behaviour under the premise that the bit equals the spec), in the "
-              "correspondence it is instantiated by the Gallina SEC1 spec ec_accept (uncompressed: length, range, "
-              "curve equation - proved to imply on-curve; compressed: prefix, length, x < p in Gallina, residuosity computed by the harness) and by querying the library for "
-              "X25519; agreement is tested, not proved.  With this library version X25519 exchange itself raises "
+              "Elliptic curves: paramiko makes no check of its own on the peer's point; C08_ec_handler is proved for an "
+              "ARBITRARY library (decode / exchange universally quantified) under the explicit premise that "
+              "from_encoded_point returns a point only for a valid SEC1 encoding of an affine point of the curve "
+              "(ec_valid, characterised completely by C08_ec_valid_shape); that premise is a fact about the "
+              "`cryptography` library and is CHECKED, not proved: every run calls the live from_encoded_point on the "
+              "grid of bad/good encodings for the three curves and the handlers on both sides.  In the correspondence "
+              "the library step is instantiated by the executable spec ec_accept (uncompressed: length, range, curve "
+              "equation in Gallina; compressed: prefix, length, x < p in Gallina, residuosity computed by the harness); "
+              "gen/c08.py pins the handlers' data flow (K = exchange(ECDH, point decoded from the received bytes), "
+              "exchange-hash input order).  X25519 from_public_bytes/exchange are library oracle bits in the model, queried "
+              "from the live library per case; agreement is tested, not proved.  With this library version X25519 exchange itself raises "
               "ValueError on low-order points, so paramiko's own zero test is exercised by substituting the engine's "
               "private key object with one whose exchange() returns a chosen 32-byte secret.  Primality of the fixed "
               "groups' P is a premise of C08_dh_nonzero_secret (not proved for the 1024..4096-bit constants).  "
@@ -778,6 +784,44 @@ def gen_cases(ctx):
     return cases + extra
 
 
+def check_library_premise(ctx, cases):
+    """Premise of C08_ec_handler, on the live `cryptography` library: from_encoded_point returns a key only
+    for a valid SEC1 encoding of an affine point of the curve (and then reports exactly that point), for
+    every encoding of the EC grid (identity 00, empty, wrong lengths, off-curve, out-of-range coordinates,
+    hybrid / unknown prefixes, compressed forms, a point of another curve) on all three curves."""
+    from cryptography.hazmat.primitives.asymmetric import ec
+    cvs = curve_params()
+    seen = set()
+    for case in cases:
+        if case["kind"] != "ec" or (case["curve"], case["pt"]) in seen:
+            continue
+        seen.add((case["curve"], case["pt"]))
+        cls = ec_classes()[case["curve"]][1]
+        p, a, b, flen = cvs[case["curve"]]
+        pt = bytes.fromhex(case["pt"])
+        ctx.count(("ec-premise", case["curve"], case["pt"]), nontrivial=True, kind="ec-premise:" + str(case.get("label")))
+        try:
+            pub = ec.EllipticCurvePublicKey.from_encoded_point(cls.curve, pt)
+        except Exception:   # noqa: any refusal satisfies the premise
+            continue
+        n = pub.public_numbers()
+        ok = (py_point_valid(cvs[case["curve"]], pt) and 0 <= n.x < p and 0 <= n.y < p
+              and (n.y * n.y - (n.x ** 3 + a * n.x + b)) % p == 0
+              and n.x == int.from_bytes(pt[1:1 + flen], "big")
+              and (pt[0] != 4 or n.y == int.from_bytes(pt[1 + flen:], "big"))
+              and (pt[0] == 4 or (n.y & 1) == pt[0] - 2))
+        if ok:
+            try:
+                z = ec.generate_private_key(cls.curve).exchange(ec.ECDH(), pub)
+                ok = len(z) == flen
+            except Exception:   # noqa: exchange may refuse; that is allowed by the premise
+                pass
+        if not ok:
+            ctx.fail("ec-library-premise", "from_encoded_point returned a key for an encoding that is not a valid SEC1 "
+                     "encoding of a point of the curve (%s): the ECDH handlers rely on the library alone"
+                     % case.get("label"), case=short(case), expected="ValueError", observed="(%x, %x)" % (n.x, n.y))
+
+
 # --------------------------------------------------------------------------- run / replay
 
 def run(ctx):
@@ -833,6 +877,7 @@ def run(ctx):
         if case.get("label") in ("boundary", "forced-zero", "off-curve-y", "1023-bit", "negative 2048-bit"):
             if not any(s.get("kind") == case["kind"] for s in ctx.samples):
                 ctx.sample({"kind": case["kind"], "case": short(case), "impl": canon(res), "exc": res["exc"]})
+    check_library_premise(ctx, cases)
     ctx.log("drove the real engines on %d cases in %.1fs" % (len(cases), time.time() - t0))
     # the four model functions are evaluated concurrently (each is its own set of coqc processes)
     import threading
